@@ -10,3 +10,5 @@ for d in seeded/*/; do
   echo "$id: ${out:-NOT DETECTED}"
 done
 git -C /repo status --short
+# leave coq/Gen as generated from /repo itself (a run against a changed tree may have left a refusal stub behind)
+python3 tools/py2coq/gen.py /repo coq/Gen Murmur3 KeyCheck Rendezvous CallSites Handlers Wrappers PoolLocks >/dev/null
